@@ -5,8 +5,10 @@ extern crate alloc;
 use vstd::prelude::*;
 use vstd::multiset::Multiset;
 use vstd::std_specs::iter::IteratorSpec;
-use vstd::std_specs::cmp::{PartialEqSpec, PartialEqSpecImpl};
+use vstd::std_specs::cmp::{PartialEqSpec, PartialEqSpecImpl, PartialOrdSpec, PartialOrdSpecImpl, OrdSpec, OrdSpecImpl};
 use core::alloc::Allocator;
 use core::cmp::Ordering;
 use core::mem;
+use core::time::Duration;
+use core::num::{NonZeroU8, NonZeroUsize};
 use alloc::vec::Vec;
